@@ -964,6 +964,10 @@ func rulesC08(p *Prog, r *Report) {
 	// the verdict consults terms only through the pair matcher (no position in a spelling-sorted list,
 	// no state carried between terms): otherwise node-level interchangeability would not lift to Satisfies
 	ruleX4(p, r, "X4")
+	// every allowed entry is a term like any other: it becomes a node only through parse (S1), so the
+	// decision list evaluated below is what decides its spelling, too — a shortcut that builds nodes for
+	// "plain" entries by hand gives one spelling of a pair a meaning of its own
+	rulesAllowedSet(p, r)
 	t, err := p.LoadTables()
 	if err != nil {
 		r.Unknown("A1", "tables", "-", err.Error())
